@@ -13,6 +13,8 @@ EVIDENCE = dict(assumptions=['kernel only: key-free peer messages (no secp256k1 
 def run(S):
     D = S.decls()
     socket_address_len(S, D)
+    node_announcement_addresses(S, D, step=False)
+    node_announcement_addresses(S, D, step=True)
     K.run_property(S, 'C13')
 
 
@@ -34,3 +36,253 @@ def socket_address_len(S, D):
             'the byte length of every address descriptor (as used for the node_announcement addrlen field) is exact: 6 / 18 / 12 / 37, and hostname length + 3 for DNS hostnames; never above SocketAddress::MAX_LEN',
             [b], bounds='all five address kinds, all hostname lengths 0..=255')
     S.no_panic('C13.m.address_len_nopanic', E, [], 'no arithmetic overflow for any hostname length (253..=255 included)', [b])
+
+
+# ---------------------------------------------------------------------------------------------
+# node_announcement address section: UnsignedNodeAnnouncement::read_from_fixed_length_buffer
+# ---------------------------------------------------------------------------------------------
+FIXED = 76      # flen(2, empty feature vector) timestamp(4) node_id(33) rgb(3) alias(32) addrlen(2)
+
+
+def _prefix_descs(r):
+    """hostname descriptors (4..259 bytes each) whose encoded lengths sum to r (r == 0 or r >= 4)"""
+    if r == 0:
+        return []
+    q, rem = divmod(r, 259)
+    sizes = [259] * q
+    if rem >= 4:
+        sizes.append(rem)
+    elif rem:
+        sizes.pop()
+        sizes += [255 + rem, 4]
+    return [(4, s_ - 4) for s_ in sizes]
+
+
+def node_announcement_addresses(S, D, step):
+    """The reader is an environment stub: a source of L bytes of which `consumed` have been read;
+    every leaf read (`u16`, `NodeId`, ..., one address descriptor, `read_exact`, `read_to_end`)
+    succeeds iff enough bytes are left and then advances `consumed`. One address descriptor read is
+    abstracted to its kind and hostname length (its byte length is `SocketAddress::len`, proven
+    exact in C13.m.address_len). The decoder's own control flow and arithmetic are the real MIR.
+
+    step=False: the whole function on a source holding at most U descriptors followed by zero padding.
+    step=True : ONE iteration of the address loop from an arbitrary loop-head state satisfying the
+                loop invariant (any number of addresses already read), then either back to the loop
+                head (invariant re-established) or on to the function's return."""
+    tag = 'C13.m.nodeann_step' if step else 'C13.m.nodeann'
+    if S._skip(tag + '.accounting') and S._skip(tag + '.nopanic') and S._skip(tag + '.witness') and S._skip(tag + '.invariant'):
+        return
+    U = 1 if step else (2 if S.tier == 'quick' else 4)
+    E = S.engine(unwind=U + 2)
+    mem = {}
+    f = S.fn('read_from_fixed_length_buffer', contains='Result<UnsignedNodeAnnouncement,')
+    V = lambda n: D.variant_index('SocketAddress', n)
+    DE = lambda n: D.variant_index('DecodeError', n)
+    L = z3.Int('src.len')                    # bytes the source holds
+    st = {'consumed': None, 'k': 0, 'pushes': [], 'descs': []}
+    addr_len = E.sym('addr_len', 'u16')
+
+    def speclen(kind, hl):
+        return z3.If(kind == 0, 6, z3.If(kind == 1, 18, z3.If(kind == 2, 12, z3.If(kind == 3, 37, hl + 3))))
+
+    def h_addr(E_, m, func, argv, guard, mem_, dest_ty, caller):
+        k = st['k']
+        st['k'] += 1
+        kind, hl = z3.Int('d%d.kind' % k), z3.Int('d%d.hl' % k)
+        if k < U:
+            E.assume(z3.And(kind >= 0, kind <= 6, hl >= 0, hl <= 255))
+        else:
+            E.assume(z3.And(kind == 5, hl == 0))         # zero padding: unknown descriptor type 0
+        sl = speclen(kind, hl)
+        need = z3.If(kind == 5, 1, z3.If(kind == 6, 2 + hl, 1 + sl))
+        enough = st['consumed'] + need <= L
+        ok_outer = z3.And(enough, kind != 6)
+        addr = E.sym('d%d.addr' % k, 'ln::msgs::SocketAddress', mem_)
+        E.assume(X.zint(addr.d) == z3.If(kind == 0, V('TcpIpV4'), z3.If(kind == 1, V('TcpIpV6'), z3.If(kind == 2, V('OnionV2'), z3.If(kind == 3, V('OnionV3'), V('Hostname'))))))
+        st['descs'].append((kind, hl, sl, addr))
+        inner = X.En('Result', z3.If(kind <= 4, 0, 1), {0: [addr], 1: [X.I(9, 'u8')]})
+        err = X.En('DecodeError', z3.If(enough, DE('InvalidValue'), DE('ShortRead')), {})
+        st['consumed'] = st['consumed'] + z3.If(z3.And(X.zbool(guard), ok_outer), need, 0)
+        return X.En('Result', z3.If(ok_outer, 0, 1), {0: [inner], 1: [err]})
+
+    def h_addr_len(E_, m, func, argv, guard, mem_, dest_ty, caller):
+        a = mem_[argv[0].cell]
+        for kind, hl, sl, addr in st['descs']:
+            if addr is a or getattr(a, 'base', None) == addr.base:
+                return X.I(sl, 'u16')
+        return NotImplemented
+
+    def h_read_ok(E_, m, func, argv, guard, mem_, dest_ty, caller):
+        ty = m.group(1)
+        if ty == 'u16':
+            return X.En('Result', 0, {0: [addr_len]})
+        return X.En('Result', 0, {0: [E.sym('fixed!%d' % len(st['descs']) + re.sub(r'\W', '', ty)[:12], ty, mem_)]})
+
+    def seq_len(v):
+        if isinstance(v, X.Seq):
+            return v.n
+        if isinstance(v, X.Tup):
+            return len(v.fs)
+        raise X.Unsupported('read_exact into %r' % (v,))
+
+    def h_read_exact(E_, m, func, argv, guard, mem_, dest_ty, caller):
+        n = seq_len(mem_[argv[1].cell])
+        ok = st['consumed'] + n <= L
+        st['consumed'] = st['consumed'] + z3.If(z3.And(X.zbool(guard), ok), n, 0)
+        return X.En('Result', z3.If(ok, 0, 1), {0: [X.UNIT], 1: [X.Opaque('io::Error(UnexpectedEof)')]})
+
+    def h_from_elem(E_, m, func, argv, guard, mem_, dest_ty, caller):
+        return X.Seq([], argv[1].t, 'u8')
+
+    def h_range_from(E_, m, func, argv, guard, mem_, dest_ty, caller):
+        v = mem_[argv[0].cell]
+        start = E.read_path(argv[1], (('f', 0, 'usize'),), mem_, guard, 'spec').t
+        E.panic(z3.And(X.zbool(guard), start > v.n), 'range start index out of range for slice', caller.fn.name)
+        c = E.new_cell()
+        mem_[c] = X.Seq([], v.n - start, 'u8')
+        return X.Ref(c)
+
+    def h_index_usize(E_, m, func, argv, guard, mem_, dest_ty, caller):
+        v = mem_[argv[0].cell]
+        E.panic(z3.And(X.zbool(guard), argv[1].t >= v.n), 'index out of bounds', caller.fn.name)
+        c = E.new_cell()
+        mem_[c] = X.I(0, 'u8')
+        return X.Ref(c)
+
+    def h_push(E_, m, func, argv, guard, mem_, dest_ty, caller):
+        v = mem_[argv[0].cell]
+        if v.ety != 'u8':
+            st['pushes'].append((X.zbool(guard), argv[1]))
+        mem_[argv[0].cell] = X.Seq([], v.n + 1, v.ety)
+        return X.UNIT
+
+    def h_vec_new(E_, m, func, argv, guard, mem_, dest_ty, caller):
+        return X.Seq([], 0, 'u8' if '<u8>' in func else 'ln::msgs::SocketAddress')
+
+    def h_read_to_end(E_, m, func, argv, guard, mem_, dest_ty, caller):
+        n = L - st['consumed']
+        st['consumed'] = z3.If(X.zbool(guard), L, st['consumed'])
+        return X.En('Result', 0, {0: [X.Seq([], n, 'u8')]})
+
+    for rx, h in [
+        (r'<(?:std::result::)?Result<(?:ln::msgs::)?SocketAddress, u8> as (?:util::ser::)?Readable>::read::<R>$', h_addr),
+        (r'SocketAddress::len$', h_addr_len),
+        (r'^<(.*) as (?:util::ser::)?Readable>::read::<R>$', h_read_ok),
+        (r'^<R as (?:bitcoin::)?(?:bitcoin_io::)?Read>::read_exact$', h_read_exact),
+        (r'vec::from_elem::<u8>$', h_from_elem),
+        (r'Vec<u8> as IndexMut<(?:std::ops::)?RangeFrom<usize>>>::index_mut$', h_range_from),
+        (r'Vec<u8> as IndexMut<usize>>::index_mut$', h_index_usize),
+        (r'Vec::<.*>::push$', h_push),
+        (r'Vec::<.*>::new$', h_vec_new),
+        (r'read_to_end::<R>$', h_read_to_end),
+        (r'Vec<u8> as Extend<&u8>>::extend::<', lambda *a: X.UNIT),
+        # `?` on the reader's io::Error: the stub reader only fails with UnexpectedEof, which
+        # `From<io::Error> for DecodeError` maps to ShortRead
+        (r'FromResidual<.*Infallible, (?:bitcoin::)?(?:bitcoin_io::|io::)Error>>>::from_residual$',
+         lambda *a: X.En('Result', 1, {1: [X.En('DecodeError', DE('ShortRead'), {})]})),
+    ]:
+        E.models.insert(0, (re.compile(rx), h))
+    # the h_read_ok pattern must not shadow the address pattern
+    E.models.sort(key=lambda t: 0 if 'SocketAddress, u8>' in t[0].pattern else 1)
+
+    rc = E.new_cell()
+    mem[rc] = X.Opaque('reader')
+    E.assume(L < (1 << 40))
+    if not step:
+        E.assume(L >= FIXED)
+        # the generic Ok stub does not count bytes: count the fixed part up front, minus what read_exact(rgb) adds
+        st['consumed'] = z3.IntVal(FIXED - 3)
+        rv = S.call(E, f, [X.Ref(rc)], mem)
+        ret = S.ret_guard
+        readpos0 = None
+    else:
+        run = X.FnRun(E, f, [X.Ref(rc)], True, mem)
+        succ, rpo, back, encl = run.analyse_cfg()
+        heads = sorted({h for (u, h) in back})
+        if len(heads) != 1:
+            raise X.Unsupported('expected exactly one loop in the node_announcement reader, found %s' % heads)
+        readpos0 = E.sym('pre.addr_readpos', 'u16')
+        n0 = z3.Int('pre.n_addresses')
+        E.assume(z3.And(n0 >= 0, n0 <= 65535))
+        # loop invariant at the head: the addresses read so far are exactly addr_readpos bytes, all of
+        # them inside the advertised section and inside the source; no unknown descriptor seen yet
+        E.assume(readpos0.t <= addr_len.t)
+        E.assume(z3.Or(readpos0.t == 0, readpos0.t >= 4))        # sums of descriptor lengths (each >= 4)
+        st['consumed'] = FIXED + readpos0.t
+        E.assume(st['consumed'] <= L)
+        loc = lambda name: int(f.debug[name].lstrip('_'))
+        tys = f.locals
+        init = {loc('addr_len'): addr_len, loc('addr_readpos'): readpos0, loc('excess'): X.B(False), loc('excess_byte'): X.I(0, 'u8'),
+                loc('addresses'): X.Seq([], n0, 'ln::msgs::SocketAddress')}
+        for nm in ('features', 'timestamp', 'node_id', 'rgb', 'alias'):
+            init[loc(nm)] = E.sym('pre.' + nm, tys[loc(nm)], mem)
+        E.depth += 1
+        rv, ret, m2 = run.run(start_bb=heads[0], init=init)
+        E.depth -= 1
+        for k_, v_ in m2.items():
+            mem[k_] = v_
+        ret = X.zbool(ret)
+        S.ret_guard = ret
+    panic = z3.Or(*[X.zbool(p[0]) for p in E.panics]) if E.panics else False
+    ok = z3.And(ret, X.zint(rv.d) == 0) if rv is not None else z3.BoolVal(False)
+    msg = rv.vs[0][0]
+    addrs = field(E, D, 'UnsignedNodeAnnouncement', 'addresses', msg, 'std::vec::Vec<ln::msgs::SocketAddress>', mem)
+    exad = field(E, D, 'UnsignedNodeAnnouncement', 'excess_address_data', msg, 'std::vec::Vec<u8>', mem)
+    ex_len, n_addr = exad.n, addrs.n
+    descs = st['descs']
+    pushed = 0
+    for g, a in st['pushes']:
+        for kind, hl, sl, addr in descs:
+            if a is addr or getattr(a, 'base', None) == addr.base:
+                pushed = pushed + z3.If(g, 1 + sl, 0)
+    if not hasattr(rv.vs[1][0], 'd'):
+        raise X.Unsupported('error payload not an enum: %r; unsupported: %s' % (rv.vs[1][0], [w for g, w in E.unsupported][:5]))
+    errd = X.zint(rv.vs[1][0].d)
+    code = z3.If(errd == DE('ShortRead'), 1, z3.If(errd == DE('BadLengthDescriptor'), 2, z3.If(errd == DE('InvalidValue'), 3, 9)))
+    if not step:
+        total = pushed + ex_len
+        args = [addr_len.t, L - FIXED]
+        for kind, hl, sl, addr in descs[:U]:
+            args += [kind, hl]
+        outs = [z3.If(ok, 1, 0), z3.If(ok, n_addr, code), z3.If(ok, ex_len, 0), z3.If(ok, total, 0)]
+        b = Binding('node_announcement_addr_probe', args, outs, panic=panic,
+                    domain=[(0, 600), (0, 700)] + [(0, 6), (0, 255)] * U, interesting=[4, 7, 13, 19, 38, 258, 259])
+        S.prove(tag + '.accounting', E, [], z3.Implies(ok, total == addr_len.t),
+                'an accepted node_announcement accounts for its address section exactly: the descriptor lengths of the addresses it returns plus the retained excess_address_data equal the advertised addrlen (no address overruns addrlen; re-encoding reproduces the addrlen field)',
+                [b], bounds='empty feature vector, <= %d address descriptors of any kind (incl. unknown / invalid-hostname) then zero padding, any addrlen, any truncation point after the fixed part' % U)
+        S.no_panic(tag + '.nopanic', E, [], 'decoding never panics on such input', [b])
+        S.witness(tag + '.witness', E, [], z3.And(ok, n_addr == U, ex_len > 0))
+        S.validate(tag + '.validate', E, b)
+        return
+    # ---- one loop step ----
+    cut = run.cut_states
+    if cut:
+        cg, cm = E.merge_mem(cut)
+        cg = X.zbool(cg)
+        rp1 = cm[run.cells[loc('addr_readpos')]].t
+        ex1 = X.zbool(cm[run.cells[loc('excess')]].t)
+        n1 = cm[run.cells[loc('addresses')]].n
+    else:
+        cg, rp1, ex1, n1 = z3.BoolVal(False), 0, z3.BoolVal(False), 0
+    kind, hl, sl, addr = descs[0]
+    consumed1 = st['consumed']
+    # native replay: a prefix of hostname descriptors of total length addr_readpos, then this descriptor;
+    # on the continuing path the source is cut right after it (the decoder then leaves the loop)
+    avail = z3.If(cg, FIXED + rp1, L) - FIXED
+    fin_ok = z3.If(cg, addr_len.t <= rp1, ok)
+    # (the second output, the number of addresses, depends on the replay's choice of prefix: not compared)
+    outs = [z3.If(fin_ok, 1, 0), None, z3.If(cg, 0, z3.If(ok, ex_len, 0)),
+            z3.If(cg, z3.If(fin_ok, rp1, 0), z3.If(ok, readpos0.t + pushed + ex_len, 0))]
+    def line_fn(v):
+        al, rp, av, k_, h_ = v
+        return ' '.join(str(x) for x in [al, av] + [y for d_ in _prefix_descs(rp) for y in d_] + [k_, h_])
+    b = Binding('node_announcement_addr_probe', [addr_len.t, readpos0.t, avail, kind, hl], outs, panic=panic, line_fn=line_fn)
+    S.no_panic(tag + '.nopanic', E, [], 'one iteration of the address loop never panics (no u16 overflow in addr_readpos + 1 + len, however many addresses precede it and however long the source is)', [b])
+    S.prove(tag + '.invariant', E, [], z3.Implies(cg, z3.And(rp1 <= addr_len.t, rp1 == readpos0.t + 1 + sl, z3.Not(ex1), n1 == n0 + 1, consumed1 == FIXED + rp1, consumed1 <= L)),
+            'loop invariant preserved: an address is accepted only if it lies entirely inside the advertised section (addr_readpos stays <= addrlen and equals the bytes consumed)',
+            [b], bounds='one loop iteration from an arbitrary invariant-satisfying state (any addr_readpos <= addrlen, any number of earlier addresses, source length < 2^40)')
+    S.prove(tag + '.accounting', E, [], z3.Implies(ok, readpos0.t + pushed + ex_len == addr_len.t),
+            'when the decoder leaves the loop and accepts, addresses + excess_address_data account for exactly addrlen bytes',
+            [b], bounds='as above; exit through loop condition, unknown descriptor or end of section')
+    S.witness(tag + '.witness', E, [], z3.And(cg, readpos0.t > 1000))
+    S.witness(tag + '.witness_exit', E, [], z3.And(ok, ex_len > 0, readpos0.t > 1000))
